@@ -118,6 +118,11 @@ def ev(n, env, funcs=None):
     if isinstance(n, ast.Call):
         f = n.func
         fname = f.id if isinstance(f, ast.Name) else (f.attr if isinstance(f, ast.Attribute) else None)
+        if isinstance(f, ast.Attribute) and fname == 'is_integer' and not n.args:
+            v = ev(f.value, env, funcs)
+            if isinstance(v, (int, float)):
+                return float(v).is_integer()
+            raise Unsupported('is_integer on a non-number')
         if isinstance(f, ast.Attribute) and fname == 'append' and len(n.args) == 1:
             tgt = ev(f.value, env, funcs)
             if isinstance(tgt, list):
